@@ -784,6 +784,15 @@ def single_site_variants(text, mode="exec"):
     return [(r, v) for r, v in out if v != text]
 
 
+def py_tokens(text):
+    """Python's own significant tokens of a text (line ends normalised), or None"""
+    try:
+        S = Src(normalise(text))
+    except Unsupported:
+        return None
+    return [(ty, s) for (ty, s, so, eo) in S.toks if ty in SIG]
+
+
 def usable_original(text, stats, mode="exec"):
     """inside the quantifier: CPython accepts, valid UTF-8 text, tab handling inside the domain"""
     sig = ref_sig(text, mode)
